@@ -22,6 +22,7 @@ package qrAlgorithm
 import   "math"
 
 import . "github.com/pbenner/autodiff"
+import   "github.com/pbenner/autodiff/verifhook"
 import   "github.com/pbenner/autodiff/algorithm/givensRotation"
 import   "github.com/pbenner/autodiff/algorithm/householderTridiagonalization"
 
@@ -136,6 +137,7 @@ func qrAlgorithmSymmetric(inSitu *InSitu, epsilon float64) (Matrix, Matrix, erro
   }
 
   for p, q := 0, 0; q < n; {
+    verifhook.Tick("qrAlgorithmSymmetric.outer")
 
     for i := 0; i < n-1; i++ {
       t11 := T.At(i  ,i  ).GetFloat64()
